@@ -28,7 +28,7 @@ ASSUMPTIONS = [
     "KeyFile.generate_key() (explicit regeneration API) is exercised only while no context is open on that path",
 ]
 REQUIRED = ["op:enter", "op:exit", "op:encrypt", "op:decrypt", "op:external", "disk:absent", "disk:valid",
-            "disk:malformed", "enter:rejected", "enter:created", "outside-context-use", "exit:by-exception", "op:genkey", "path:home-relative"]
+            "disk:malformed", "enter:rejected", "enter:created", "outside-context-use", "exit:by-exception", "op:genkey", "path:home-relative", "config:key-file-reassigned"]
 LEVEL_TEXT = (
     "Generated histories against an explicit reference model of the key-file life cycle, invariant checked after "
     "every step; shows the property on the explored histories and kills the listed mutants (key kept after "
@@ -384,6 +384,34 @@ def run_case(case, R):
             random.setstate(prng_state)
         R.check(isinstance(made, list) and len(made[0]) == 32 and made[0] != made[1], "create-once", "prng-reseeded",
                 lambda: "two key files created after random.seed(k): %r" % (made,))
+
+        # a configuration's key object is re-pointed the library's own way (another key file name is assigned to the
+        # configuration): from then on THAT file is the key file - created once if missing, used verbatim
+        import base64
+        sch = cc.Schema()
+        sch.pw = cc.SecureField(method="xor")
+        ka, kb = os.path.join(d, "keys", "cfgA.key"), os.path.join(d, "keys", "cfgB.key")
+        plain = "re-pointed key object " * 3
+        try:
+            conf = sch(key_filename=ka)
+            conf.pw = plain
+            first = conf.to_tree()["pw"]
+            conf._key_filename = kb
+            second = conf.to_tree()["pw"]
+            third = conf.to_tree()["pw"]
+            keys = [open(k, "rb").read() if os.path.exists(k) else None for k in (ka, kb)]
+        except Exception as exc:
+            R.fail("create-failed", "config-repointed", "saving under a re-assigned key file name raised %r" % (exc,))
+        else:
+            R.label("config:key-file-reassigned")
+            ok = all(k is not None and len(k) == 32 for k in keys)
+            if R.check(ok, "create-once", "config-repointed", lambda: "after saving under two key file names in turn the files hold %r" % (keys,)):
+                def under(stored, key):
+                    raw = base64.b64decode(stored["ciphertext"])
+                    return bytes(b ^ key[i % 32] for i, b in enumerate(raw)).decode("utf-8", "replace")
+                R.check(under(first, keys[0]) == plain, "key-in-use", "config-repointed:first", "the first save does not decrypt under its key file")
+                R.check(under(second, keys[1]) == plain and under(third, keys[1]) == plain, "key-in-use", "config-repointed:second",
+                        lambda: "after the key file name was re-assigned, the saved secret does not decrypt under the new key file (under the old one: %r)" % (under(second, keys[0])[:30],))
 
         for o in objs:
             while o.depth > 0:
